@@ -97,7 +97,7 @@ def run_spec(label, consts, simulate=None, invariants=None, depth=40):
     if consts.get('CheckText'):
         inv = TEXT_INVARIANTS + inv
     return dict(label=label, consts=consts, simulate=(simulate, depth) if simulate else None, invariants=inv,
-                constraint='StopAfterReady' if consts.get('ExportMode') == 'checker' else None)
+                constraint='StopAfterReady' if consts.get('ExportMode') in ('checker', 'load') else None)
 
 
 # ---------------------------------------------------------------------------
@@ -133,5 +133,21 @@ def shared3(**over):
 def wide(ns=3, np_=3, nl=2, na=3, **over):
     d = dict(NA=na, NS=ns, NP=np_, NL=nl, MaxLen=3, PQ=PQ_RICH, LQ=LQ_RICH, LecMapMode='all',
              Sided={'one', 'two', 'ignored'} if na == 2 else {'one', 'two'}, OrderMode='all', Stabs={False, True})
+    d.update(over)
+    return fam(**d)
+
+
+def twodigit_projects(**over):
+    """ten or more projects: two-digit ids (a project id containing the digit 0, ids >= 10)"""
+    d = dict(NA=3, NS=2, NP=11, NL=2, MaxLen=2, TieMode='none', AllowEmpty=True, PQ={(0, 1)}, LQ={(0, 1, 2)},
+             LecMapMode='mono', Sided={'one', 'two'}, OrderMode='asc', Stabs={False}, PCs={False})
+    d.update(over)
+    return fam(**d)
+
+
+def twodigit_students(**over):
+    """ten or more students (two-digit student ids), one or two projects"""
+    d = dict(NA=3, NS=10, NP=2, NL=1, MaxLen=1, TieMode='none', AllowEmpty=True, PQ={(0, 2), (0, 10)}, LQ={(0, 3, 10)},
+             LecMapMode='mono', Sided={'one', 'two'}, OrderMode='asc', Stabs={False}, PCs={False})
     d.update(over)
     return fam(**d)
